@@ -53,6 +53,10 @@ type Term struct {
 	id   int32 // SMT definition id within the current solver scope (0 = none)
 	gen  int32 // generation of id
 	h    uint64 // structural hash (0 = not computed)
+	vs   []*Term // distinct variables (computed lazily; nil = not computed; capped at 3)
+	vsOK bool
+	tt   *[4]uint64 // truth table over the single byte variable (byte conditions only)
+	vec  *[256]uint64 // value for each value of the single byte variable
 }
 
 func (t *Term) IsConst() bool { return t.op == OpConst }
@@ -1013,4 +1017,224 @@ func termEqual(a, b *Term) bool {
 		}
 	}
 	return true
+}
+
+// varsOf returns the distinct variables of t, or (nil,false) if there are more than two.
+func varsOf(t *Term) ([]*Term, bool) {
+	if t.vsOK {
+		return t.vs, len(t.vs) <= 2
+	}
+	var out []*Term
+	switch t.op {
+	case OpConst:
+	case OpVar:
+		out = []*Term{t}
+	default:
+		for _, a := range t.args {
+			vs, _ := varsOf(a)
+			for _, v := range vs {
+				dup := false
+				for _, o := range out {
+					if o.name == v.name {
+						dup = true
+						break
+					}
+				}
+				if !dup {
+					out = append(out, v)
+				}
+			}
+			if len(out) > 2 {
+				out = out[:3]
+				break
+			}
+		}
+	}
+	t.vs = out
+	t.vsOK = true
+	return out, len(out) <= 2
+}
+
+// evalWith evaluates t with a single variable bound (all other variables 0).
+func evalWith(t *Term, name string, val uint64) uint64 {
+	switch t.op {
+	case OpConst:
+		return t.val
+	case OpVar:
+		if t.name == name {
+			return val & mask(t.w)
+		}
+		return 0
+	}
+	as := Assignment{Vars: map[string]uint64{name: val}}
+	return as.Eval(t)
+}
+
+// evalByte evaluates a term whose only variable is bound to x, without memoisation.
+func evalByte(t *Term, x uint64) uint64 {
+	switch t.op {
+	case OpConst:
+		return t.val
+	case OpVar:
+		return x & mask(t.w)
+	case OpAdd, OpSub, OpMul, OpUDiv, OpSDiv, OpURem, OpSRem, OpAnd, OpOr, OpXor, OpShl, OpLShr, OpAShr:
+		return evalBin(t.op, t.w, evalByte(t.args[0], x), evalByte(t.args[1], x))
+	case OpNot:
+		return ^evalByte(t.args[0], x) & mask(t.w)
+	case OpNeg:
+		return -evalByte(t.args[0], x) & mask(t.w)
+	case OpEq:
+		if evalByte(t.args[0], x) == evalByte(t.args[1], x) {
+			return 1
+		}
+		return 0
+	case OpUlt, OpUle, OpSlt, OpSle:
+		if evalCmp(t.op, t.args[0].w, evalByte(t.args[0], x), evalByte(t.args[1], x)) {
+			return 1
+		}
+		return 0
+	case OpIte:
+		if evalByte(t.args[0], x) == 1 {
+			return evalByte(t.args[1], x)
+		}
+		return evalByte(t.args[2], x)
+	case OpZext:
+		return evalByte(t.args[0], x)
+	case OpSext:
+		return uint64(sx(evalByte(t.args[0], x), t.args[0].w)) & mask(t.w)
+	case OpExtract:
+		return (evalByte(t.args[0], x) >> t.val) & mask(t.w)
+	case OpConcat:
+		return evalByte(t.args[0], x)<<t.args[1].w | evalByte(t.args[1], x)
+	case OpBAnd:
+		return evalByte(t.args[0], x) & evalByte(t.args[1], x)
+	case OpBOr:
+		return evalByte(t.args[0], x) | evalByte(t.args[1], x)
+	case OpBNot:
+		return evalByte(t.args[0], x) ^ 1
+	}
+	panic("evalByte: unsupported op")
+}
+
+// termSize counts nodes as a tree, up to limit.
+func termSize(t *Term, limit int) int {
+	n := 1
+	for _, a := range t.args {
+		n += termSize(a, limit-n)
+		if n > limit {
+			return n
+		}
+	}
+	return n
+}
+
+// byteVec returns the value of t for each value of its single byte variable (cached per node,
+// so shared subterms such as a decoded rune are evaluated once).
+func byteVec(t *Term) *[256]uint64 {
+	if t.vec != nil {
+		return t.vec
+	}
+	var v [256]uint64
+	switch t.op {
+	case OpConst:
+		for x := range v {
+			v[x] = t.val
+		}
+	case OpVar:
+		for x := range v {
+			v[x] = uint64(x) & mask(t.w)
+		}
+	case OpAdd, OpSub, OpMul, OpUDiv, OpSDiv, OpURem, OpSRem, OpAnd, OpOr, OpXor, OpShl, OpLShr, OpAShr:
+		a, b := byteVec(t.args[0]), byteVec(t.args[1])
+		for x := range v {
+			v[x] = evalBin(t.op, t.w, a[x], b[x])
+		}
+	case OpNot:
+		a := byteVec(t.args[0])
+		for x := range v {
+			v[x] = ^a[x] & mask(t.w)
+		}
+	case OpNeg:
+		a := byteVec(t.args[0])
+		for x := range v {
+			v[x] = -a[x] & mask(t.w)
+		}
+	case OpEq:
+		a, b := byteVec(t.args[0]), byteVec(t.args[1])
+		for x := range v {
+			if a[x] == b[x] {
+				v[x] = 1
+			}
+		}
+	case OpUlt, OpUle, OpSlt, OpSle:
+		a, b := byteVec(t.args[0]), byteVec(t.args[1])
+		w := t.args[0].w
+		for x := range v {
+			if evalCmp(t.op, w, a[x], b[x]) {
+				v[x] = 1
+			}
+		}
+	case OpIte:
+		c, a, b := byteVec(t.args[0]), byteVec(t.args[1]), byteVec(t.args[2])
+		for x := range v {
+			if c[x] == 1 {
+				v[x] = a[x]
+			} else {
+				v[x] = b[x]
+			}
+		}
+	case OpZext:
+		a := byteVec(t.args[0])
+		v = *a
+	case OpSext:
+		a := byteVec(t.args[0])
+		for x := range v {
+			v[x] = uint64(sx(a[x], t.args[0].w)) & mask(t.w)
+		}
+	case OpExtract:
+		a := byteVec(t.args[0])
+		for x := range v {
+			v[x] = (a[x] >> t.val) & mask(t.w)
+		}
+	case OpConcat:
+		a, b := byteVec(t.args[0]), byteVec(t.args[1])
+		for x := range v {
+			v[x] = a[x]<<t.args[1].w | b[x]
+		}
+	case OpBAnd:
+		a, b := byteVec(t.args[0]), byteVec(t.args[1])
+		for x := range v {
+			v[x] = a[x] & b[x]
+		}
+	case OpBOr:
+		a, b := byteVec(t.args[0]), byteVec(t.args[1])
+		for x := range v {
+			v[x] = a[x] | b[x]
+		}
+	case OpBNot:
+		a := byteVec(t.args[0])
+		for x := range v {
+			v[x] = a[x] ^ 1
+		}
+	default:
+		panic("byteVec: unsupported op")
+	}
+	t.vec = &v
+	return t.vec
+}
+
+// truthTable of a single-byte condition.
+func truthTable(c *Term) *[4]uint64 {
+	if c.tt != nil {
+		return c.tt
+	}
+	var tt [4]uint64
+	vec := byteVec(c)
+	for x := 0; x < 256; x++ {
+		if vec[x] == 1 {
+			tt[x>>6] |= 1 << (uint(x) & 63)
+		}
+	}
+	c.tt = &tt
+	return c.tt
 }
